@@ -1233,6 +1233,8 @@ package stun
 //@   ensures result1 == nil && result0.Scheme >= 3 && q_n(url_query(raw)) == 0 ==> result0.Proto == result0.Scheme - 2
 //@   ensures result1 == nil && result0.Scheme >= 3 && q_n(url_query(raw)) == 1 ==> q_has(url_query(raw), "transport") && result0.Proto == ProtoOf(q_first(url_query(raw), "transport"))
 //@   ensures result1 == nil ==> result0.Username == "" && result0.Password == ""
+// a bracketed authority must hold an IP literal (RFC 3986 3.2.2)
+//@   ensures result1 == nil && str_hasprefix(url_opaque(raw), "[") ==> ip_literal(result0.Host)
 // rejections the property names explicitly
 //@   ensures url_ok(raw) && SchemeOf(url_scheme(raw)) == 0 ==> result1 == ErrSchemeType
 
